@@ -20,6 +20,10 @@ CHECKS = {
    text="Generated keys/plaintexts/nonces through all encryption interfaces and all decryptors; constructed candidates (bit flips, bad C1/C2/C3, DER mutants) must get the model's verdict. Exploration only.",
    note="Trusted: vlib/ref/sm2.py + sigder.py. 'Equals the GB/T value for the nonce drawn' is decided through the private key unless the scripted nonce was observed.",
    design="4/C02"),
+ "C12": dict(level="exploration", technique="property-based testing (Hypothesis): generated coordinate/octet/scalar classes embedded in every import container, decision compared with a Python big-integer curve predicate; compress/decompress round trip",
+   text="Generated invalid and valid coordinates, octet strings (all lengths x prefix bytes) and scalars are pushed through every import path (raw, SEC1 octets, DER, SPKI DER/PEM, ECPrivateKey/PKCS#8, certificate/request SPKI, sm2_ecdh, TLS ECDHE records, TLS 1.3 key shares); import must succeed iff the model says the point/scalar is valid, never yield infinity, and reject mismatching embedded public keys. Exploration only.",
+   note="Trusted: vlib/ref/sm2.py curve predicate, sigder.py container builders (each with a positive control). SM9 point import is covered by C17's group sub-check, not here.",
+   design="4/C12"),
 }
 
 NOT_YET = {
